@@ -312,6 +312,10 @@ func (p cfgPath) Remove(cfg *Config, opt *options) (bool, error) {
 	// resolve config object in case we deal with references
 	tmp, err := cur.toConfig(opt)
 	if err != nil {
+		if _, typed := err.(Error); !typed {
+			// a primitive: report it like every other access through a non-object
+			return false, raiseExpectedObject(opt, cur)
+		}
 		return false, err
 	}
 	cur = cfgSub{tmp}
